@@ -30,6 +30,13 @@ KEY_TYPES = {"x": "int", "y": "int", "s": "str", "b": "bool", "name": "str",
              # attribute names that are not Python identifiers / look private / are keywords
              "age group": "int", "unit-cost": "int", "_flag": "bool", "class": "str", "2024": "int"}
 ODD_KEYS = ["age group", "unit-cost", "_flag", "class", "2024"]
+# affixes / superstrings of the reserved key "name", of "path" and of the column-name options; names of Node properties
+AFFIX_KEYS = ["n", "a", "m", "e", "na", "am", "me", "nam", "ame", "names", "name_en", "path", "pat", "depth", "shift",
+              "col", "node"]
+KEY_TYPES.update({"n": "int", "a": "str", "m": "int", "e": "bool", "na": "str", "am": "int", "me": "str", "nam": "int",
+                  "ame": "str", "names": "str", "name_en": "str", "path": "str", "pat": "int", "depth": "int",
+                  "shift": "int", "col": "int", "node": "str"})
+PYV = "\x01py:"       # prefix of attribute values that stand for a Python list / dict / tuple / float (repr follows)
 
 
 def coq_header(prop):
@@ -63,12 +70,24 @@ def _canon(v):
             return None
         if f == int(f):
             return int(f)
-        raise ValueError("non-integral float attribute %r" % (v,))
+        return PYV + repr(f)
+    if isinstance(v, (list, dict, tuple)):
+        return PYV + repr(v)
     if isinstance(v, str):
         return str(v)
     if tn in ("NAType", "NaTType"):
         return None
     raise ValueError("attribute value of unexpected type %s" % tn)
+
+
+def _pyval(v, nan=False):
+    """JSON attribute value -> the Python object handed to the implementation"""
+    if isinstance(v, str) and v.startswith(PYV):
+        import ast
+        return ast.literal_eval(v[len(PYV):])
+    if v is None and nan:
+        return float("nan")
+    return v
 
 
 _PRIVATE = {"name", "_sep", "_BaseNode__parent", "_BaseNode__children"}
@@ -85,13 +104,24 @@ _CLS = {}
 def _node_class(case):
     """Node, or a user subclass of Node (created nodes must be of the class of the tree / of node_type)"""
     from bigtree.node.node import Node
-    if case.get("opt", {}).get("cls") != "sub":
+    kind = case.get("opt", {}).get("cls")
+    if kind not in ("sub", "sub_eq"):
         return Node
     if "sub" not in _CLS:
         class CNode(Node):
             pass
+
+        class ENode(Node):
+            """value semantics: nodes with the same name compare (and hash) equal -- the library must go by identity"""
+
+            def __eq__(self, other):
+                return isinstance(other, Node) and other.name == self.name
+
+            def __hash__(self):
+                return hash(self.name)
         _CLS["sub"] = CNode
-    return _CLS["sub"]
+        _CLS["sub_eq"] = ENode
+    return _CLS[kind]
 
 
 def _observe(root, nodes, cls):
@@ -122,7 +152,7 @@ def _build(case):
     cls = _node_class(case)
     nodes, stack = [], []
     for depth, name, attrs in case["tree"]:
-        kw = {k: v for k, v in attrs}
+        kw = {k: _pyval(v) for k, v in attrs}
         n = cls(name, sep=case["tsep"], **kw) if depth == 1 else cls(name, **kw)
         if depth > 1:
             n.parent = stack[depth - 2]
@@ -202,12 +232,12 @@ def _polars(case, rows, idcol, all_rows):
     return pl.DataFrame(data, schema=schema), kw
 
 
-def _as_dict(rows):
-    return {p: {k: v for k, v in a} for p, a in rows}
+def _as_dict(rows, nan=False):
+    return {p: {k: _pyval(v, nan) for k, v in a} for p, a in rows}
 
 
 def _dict_snapshot(d):
-    return [(k, list(v.items())) for k, v in d.items()]
+    return [(k, [(kk, vv if vv == vv else None) for kk, vv in v.items()]) for k, v in d.items()]
 
 
 def _call(kind, case, C, start, rows, all_rows, cls):
@@ -217,7 +247,7 @@ def _call(kind, case, C, start, rows, all_rows, cls):
     sep, dup = case["sep"], case["dup"]
     opt = case.get("opt", {})
     pcol = opt.get("pcol", "NAME" if case["family"] == "name" else PCOL)
-    nt = {"node_type": cls} if opt.get("cls") == "sub" else {}
+    nt = {"node_type": cls} if opt.get("cls") in ("sub", "sub_eq") else {}
     if kind == "KList":
         paths = [p for p, _ in rows]
         arg = tuple(paths) if opt.get("container") == "tuple" else list(paths)
@@ -229,8 +259,9 @@ def _call(kind, case, C, start, rows, all_rows, cls):
             if isinstance(arg, list):
                 arg.append(sep.join(["zzmut", "zz"]))
         return ret, post
+    nan = bool(opt.get("nan"))
     if kind in ("KDict", "KAddDict", "KNameDict"):
-        d = _as_dict(rows)
+        d = _as_dict(rows, nan)
         snap = _dict_snapshot(d)
         if kind == "KDict":
             ret = [C.dict_to_tree(d, sep=sep, duplicate_name_allowed=dup, **nt)]
@@ -248,8 +279,8 @@ def _call(kind, case, C, start, rows, all_rows, cls):
     if kind == "KAddPath":
         ret, dicts = [], []
         for p, a in rows:
-            na = {k: v for k, v in a}
-            dicts.append((na, list(na.items())))
+            na = {k: _pyval(v, nan) for k, v in a}
+            dicts.append((na, [(k, v if v == v else None) for k, v in na.items()]))
             if not a and opt.get("omit_empty_attrs"):
                 ret.append(C.add_path_to_tree(start, p, sep=sep, duplicate_name_allowed=dup))
             else:
@@ -257,7 +288,7 @@ def _call(kind, case, C, start, rows, all_rows, cls):
 
         def post():
             for na, snap in dicts:
-                if list(na.items()) != snap:
+                if [(k, v if v == v else None) for k, v in na.items()] != snap:
                     raise ValueError("a node_attrs argument was modified by the call")
                 na["zzmut"] = 1
         return ret, post
@@ -325,9 +356,68 @@ def _run_kind(kind, case):
             "rets": [order.get(id(r), 10 ** 6) for r in rets], "split": split}
 
 
+def _node_at(root, names):
+    """the node at a name path (root name first) in the tree as it is now"""
+    if not names or root.node_name != names[0]:
+        raise ValueError("history: no node at %r" % (names,))
+    n = root
+    for nm in names[1:]:
+        hit = [c for c in n.children if c.node_name == nm]
+        if len(hit) != 1:
+            raise ValueError("history: no node at %r" % (names,))
+        n = hit[0]
+    return n
+
+
+def _run_history(case):
+    """add_path_to_tree calls on one or two roots, interleaved with structural edits through the node API"""
+    from bigtree.tree import construct as C
+    cls = _node_class(case)
+    nodes = _build(case)
+    roots = [nodes[0]]
+    if case.get("tree2"):
+        nodes2 = _build(dict(case, tree=case["tree2"]))
+        roots.append(nodes2[0])
+        nodes = nodes + nodes2
+    opt = case.get("opt", {})
+    out = []
+    for op in case["ops"]:
+        kind, ti = op[0], op[1]
+        root = roots[ti]
+        if kind == "add":
+            na = {k: _pyval(v, bool(opt.get("nan"))) for k, v in op[3]}
+            code, rets = 0, []
+            try:
+                if not op[3] and opt.get("omit_empty_attrs"):
+                    r = C.add_path_to_tree(root, op[2], sep=case["sep"], duplicate_name_allowed=case["dup"])
+                else:
+                    r = C.add_path_to_tree(root, op[2], sep=case["sep"], duplicate_name_allowed=case["dup"], node_attrs=na)
+                rets = [r]
+            except Exception as e:  # noqa
+                code = exn_code(e)
+            if root.root is not root:
+                raise ValueError("history: the root got a parent")
+            tree, order = _observe(root, nodes, cls)
+            out.append({"kind": "KAddPath", "code": code, "sep": root.sep, "tree": tree,
+                        "rets": [order.get(id(r), 10 ** 6) for r in rets], "split": 0})
+        elif kind == "del":
+            n = _node_at(root, op[2])
+            del n.parent[n.node_name]
+        elif kind == "move":
+            n = _node_at(root, op[2])
+            n.parent = _node_at(root, op[3])
+        elif kind == "sort":
+            _node_at(root, op[2]).sort(key=lambda x: x.node_name)
+        else:
+            raise KeyError(kind)
+    return {"obs": [], "adds": out}
+
+
 def run_impl(prop, case):
     with warnings.catch_warnings():
         warnings.simplefilter("ignore")
+        if case.get("ops"):
+            return _run_history(case)
         return {"obs": [_run_kind(k, case) for k in case["kinds"]]}
 
 
@@ -355,15 +445,35 @@ def _ctree(t):
     return clist(f"({int(d)}, ({copt(g, str)}, {cstr(n)}, {_cattrs(a)}))" for d, g, n, a in t)
 
 
+def _cobs(o):
+    return (f"CO {o['kind']} {int(o['code'])} ({cstr(o['sep'])}) ({_ctree(o['tree'])}) "
+            f"({clist(str(min(int(r), 999)) for r in o['rets'])}) {int(o.get('split', 0))}")
+
+
+def _cnames(names):
+    return clist(cstr(n) for n in names)
+
+
 def emit(prop, case, obs):
     tree = [[d, i, n, a] for i, (d, n, a) in enumerate(case["tree"])]
+    n0 = len(tree)
+    tree2 = [[d, n0 + i, n, a] for i, (d, n, a) in enumerate(case.get("tree2") or [])]
     rows = clist(cpair(cstr(p), _cattrs(a)) for p, a in case["rows"])
-    obl = clist(
-        f"CO {o['kind']} {int(o['code'])} ({cstr(o['sep'])}) ({_ctree(o['tree'])}) ({clist(str(min(int(r), 999)) for r in o['rets'])}) {int(o.get('split', 0))}"
-        for o in obs["obs"])
+    obl = clist(_cobs(o) for o in obs["obs"])
+    ops = []
+    adds = list(obs.get("adds", []))
+    for op in case.get("ops") or []:
+        if op[0] == "add":
+            ops.append(f"SAdd {int(op[1])} ({cstr(op[2])}) ({_cattrs(op[3])}) ({_cobs(adds.pop(0))})")
+        elif op[0] == "del":
+            ops.append(f"SDel {int(op[1])} ({_cnames(op[2])})")
+        elif op[0] == "move":
+            ops.append(f"SMove {int(op[1])} ({_cnames(op[2])}) ({_cnames(op[3])})")
+        else:
+            ops.append(f"SSort {int(op[1])} ({_cnames(op[2])})")
     pcol = case.get("opt", {}).get("pcol", "NAME" if case["family"] == "name" else PCOL)
     return (f"CC ({cstr(case['sep'])}) {cbool(case['dup'])} ({cstr(case['tsep'])}) ({_ctree(tree)}) "
-            f"{int(case['start'])} ({cstr(pcol)}) ({rows}) ({obl})")
+            f"{int(case['start'])} ({cstr(pcol)}) ({rows}) ({obl}) ({_ctree(tree2)}) ({clist(ops)})")
 
 
 # ---------------------------------------------------------------------------------------------
@@ -438,17 +548,26 @@ def gen_shape(rng, shape, pool, nmax):
     return nodes
 
 
-def gen_attrs(rng, allow_name, rate=0.55, odd=False):
+RICH_VALUES = [PYV + "[]", PYV + "[1, 2]", PYV + "{}", PYV + "{'k': 1}", PYV + "1.5", PYV + "()"]
+
+
+def gen_attrs(rng, allow_name, rate=0.55, odd=""):
+    """odd: "" | "odd" | "affix", optionally followed by "+rich" (values may be lists / dicts / floats)"""
     if rng.random() > rate:
         return []
     out = []
+    odd = odd or ""
     keys = ["x", "s", "y", "b"] + (["name"] if allow_name else [])
-    if odd:
+    if odd.startswith("odd"):
         keys = ["x", "s"] + ODD_KEYS + (["name"] if allow_name else [])
+    elif odd.startswith("affix"):
+        keys = ["x"] + AFFIX_KEYS + (["name"] if allow_name else [])
     rng.shuffle(keys)
     for k in keys[: rng.randint(1, 3)]:
         t = KEY_TYPES[k]
-        if t == "int":
+        if "+rich" in odd and rng.random() < 0.5:
+            v = rng.choice(RICH_VALUES)
+        elif t == "int":
             v = rng.choice([0, 0, 1, 2, -1, 7, None])
         elif t == "bool":
             v = rng.choice([True, False, False, None])
@@ -553,12 +672,21 @@ def gen_opt(rng, case):
     """how the arguments are handed over: node class, container type, frame layout, index labels, double call"""
     fam = case["family"]
     opt = {}
-    if rng.random() < 0.25:
-        opt["cls"] = "sub"
+    if rng.random() < 0.3:
+        opt["cls"] = rng.choice(["sub", "sub_eq"])
     if rng.random() < 0.3:
         opt["container"] = "tuple"
+    used = {k for _, a in case.get("rows", []) for k, _v in a}
     if rng.random() < 0.4:
-        opt["pcol"] = rng.choice(["node name", "n", "0"] if fam == "name" else ["path col", "p", "0"])
+        cand = [c for c in (["node name", "n", "0", "names"] if fam == "name" else ["path col", "p", "0", "pat"])
+                if c not in used]
+        if cand:
+            opt["pcol"] = rng.choice(cand)
+    if rng.random() < 0.3:
+        opt["nan"] = True          # nulls handed over as float('nan') where no frame is involved
+    if any(isinstance(v, str) and v.startswith(PYV) for _, a in case.get("rows", []) for _k, v in a):
+        # list / dict / float values: only the entry points that take plain Python values
+        case["kinds"] = [k for k in case["kinds"] if k in ("KList", "KDict", "KAddPath", "KAddDict", "KNameDict")]
     if rng.random() < 0.3:
         opt["pcol_pos"] = "last"
     if rng.random() < 0.3:
@@ -613,7 +741,124 @@ def gen_nodup_deep(rng):
     return case
 
 
+class _Shadow:
+    """the set of name paths of one tree, to pick valid targets for the edits of a history"""
+
+    def __init__(self, paths):
+        self.paths = [tuple(p) for p in paths]
+
+    def add(self, p):
+        for k in range(1, len(p) + 1):
+            if tuple(p[:k]) not in self.paths:
+                self.paths.append(tuple(p[:k]))
+
+    def below(self, p):
+        p = tuple(p)
+        return [q for q in self.paths if q[:len(p)] == p]
+
+    def delete(self, p):
+        gone = set(self.below(p))
+        self.paths = [q for q in self.paths if q not in gone]
+
+    def move(self, src, dst):
+        src, dst = tuple(src), tuple(dst)
+        new = dst + (src[-1],)
+        self.paths = [(new + q[len(src):]) if q[:len(src)] == src else q for q in self.paths]
+
+    def can_move(self, src, dst):
+        src, dst = tuple(src), tuple(dst)
+        return (len(src) > 1 and dst in self.paths and dst[:len(src)] != src and dst != src[:-1]
+                and (dst + (src[-1],)) not in self.paths)
+
+
+def gen_history(rng):
+    """one or two roots; add_path_to_tree calls interleaved with del parent[name] / node.parent = other /
+    node.sort(); in particular: add a path, detach or re-parent one of its prefix nodes, add a path sharing
+    that prefix again; the same paths added to two roots alternately"""
+    pool_name = rng.choice(["distinct", "distinct", "affix", "repeated"])
+    pool = NAME_POOLS[pool_name]
+    nodes = gen_shape(rng, rng.choice(["deep", "mixed", "wide"]), pool, rng.choice([6, 8, 10]))
+    names = sorted({n for p in nodes for n in p})
+    sep = pick_sep(rng, names)
+    dup = True
+    root = nodes[0]
+    keep = [root]
+    for p in nodes[1:]:
+        if p[:-1] in keep and rng.random() < 0.5:
+            keep.append(p)
+    pre = _preorder(keep)
+    case = {"family": "seq", "sep": sep, "dup": dup, "tsep": pick_tsep(rng, names, dup, sep),
+            "tree": [[len(p), p[-1], gen_attrs(rng, False, 0.3)] for p in pre], "start": 0, "rows": [], "kinds": [],
+            "tree2": [], "stratum": f"seq/{pool_name}"}
+    shadows = [_Shadow(pre)]
+    if rng.random() < 0.4:
+        r2 = root[0] if rng.random() < 0.6 else rng.choice(pool)
+        case["tree2"] = [[1, r2, []]]
+        shadows.append(_Shadow([[r2]]))
+        case["stratum"] += "/two"
+    ops = []
+    last = None           # (tree, path) of the last add
+    n_ops = rng.randint(4, 8)
+    budget = 60
+    while len(ops) < n_ops and budget > 0:
+        budget -= 1
+        ti = rng.randrange(len(shadows))
+        sh = shadows[ti]
+        rname = sh.paths[0][0]
+        r = rng.random()
+        if last is not None and last[0] == ti and r < 0.45 and len(last[1]) >= 2:
+            # edit a prefix node of the path just added, then add below the same prefix again
+            k = rng.randint(2, len(last[1]))
+            pref = list(last[1][:k])
+            if tuple(pref) in sh.paths:
+                dsts = [list(q) for q in sh.paths if sh.can_move(pref, q)]
+                if dsts and rng.random() < 0.5:
+                    dst = rng.choice(dsts)
+                    ops.append(["move", ti, pref, dst])
+                    sh.move(pref, dst)
+                else:
+                    ops.append(["del", ti, pref])
+                    sh.delete(pref)
+                tail = [rng.choice(pool) for _ in range(rng.randint(0, 2))]
+                p = pref + tail
+                ops.append(["add", ti, render(rng, p, sep), gen_attrs(rng, False, 0.4)])
+                sh.add(p)
+                last = (ti, p)
+                continue
+        if r < 0.7 or last is None:
+            cands = [p for p in nodes if len(p) >= 2]
+            p = list(rng.choice(cands)) if cands else list(root) + [rng.choice(pool)]
+            p = [rname] + p[1:]
+            if last is not None and rng.random() < 0.3:
+                p = [rname] + list(last[1])[1:]          # the same path again (on this or the other root)
+            ops.append(["add", ti, render(rng, p, sep), gen_attrs(rng, False, 0.4)])
+            sh.add(p)
+            last = (ti, p)
+        elif r < 0.8:
+            cands = [list(q) for q in sh.paths if len(q) >= 2]
+            if cands:
+                q = rng.choice(cands)
+                ops.append(["del", ti, q])
+                sh.delete(q)
+        elif r < 0.9:
+            pairs = [(list(a), list(b)) for a in sh.paths for b in sh.paths if sh.can_move(a, b)]
+            if pairs:
+                a, b = rng.choice(pairs)
+                ops.append(["move", ti, a, b])
+                sh.move(a, b)
+        else:
+            ops.append(["sort", ti, list(rng.choice(sh.paths))])
+    case["ops"] = ops
+    return case
+
+
 def gen_case(rng, family=None):
+    if family is None and rng.random() < 0.08:
+        c = gen_history(rng)
+        c["opt"] = {"omit_empty_attrs": rng.random() < 0.5, "nan": rng.random() < 0.3}
+        if rng.random() < 0.3:
+            c["opt"]["cls"] = rng.choice(["sub", "sub_eq"])
+        return c
     return gen_opt(rng, _gen_case(rng, family))
 
 
@@ -633,7 +878,7 @@ def _gen_case(rng, family=None):
     sep = pick_sep(rng, names)
     dup = rng.random() < 0.6
     allow_name = rng.random() < 0.08
-    odd = rng.random() < 0.25
+    odd = rng.choice(["", "", "odd", "affix", "affix"]) + ("+rich" if rng.random() < 0.12 else "")
     case = {"family": family, "sep": sep, "dup": dup, "tsep": "/", "tree": [], "start": 0,
             "kinds": list(FAMILIES[family]), "stratum": f"{family}/{shape}/{pool_name}"}
 
@@ -756,7 +1001,7 @@ def corpus(prop):
 
 
 def generate(prop, rng, tier):
-    count = {"quick": 1300, "thorough": 26000, "search": 4000}[tier]
+    count = {"quick": 1300, "thorough": 20000, "search": 4000}[tier]
     for _ in range(count):
         c = gen_case(rng)
         yield c["stratum"], c
@@ -767,6 +1012,19 @@ def generate(prop, rng, tier):
 
 def shrink_candidates(prop, case):
     rows = case["rows"]
+    ops = case.get("ops") or []
+    if ops:
+        # histories: later edits refer to the tree as left by the earlier ones, so only drop from the end
+        for k in range(len(ops) - 1, 0, -1):
+            c = dict(case)
+            c["ops"] = ops[:k]
+            yield c
+        for k, op in enumerate(ops):
+            if op[0] == "add" and op[3]:
+                c = dict(case)
+                c["ops"] = ops[:k] + [[op[0], op[1], op[2], []]] + ops[k + 1:]
+                yield c
+        return
     for key in sorted(case.get("opt", {})):
         if case["opt"][key] not in (False, "range", None):
             c = dict(case)
@@ -811,19 +1069,24 @@ def shrink_candidates(prop, case):
 
 
 def size(case):
-    return (10 * len(case["rows"]) + 10 * len(case["tree"]) + 3 * len(case["kinds"])
+    return (12 * len(case.get("ops") or []) + 10 * len(case["rows"]) + 10 * len(case["tree"]) + 3 * len(case["kinds"])
             + sum(len(a) for _, a in case["rows"]) + sum(len(a) for _, _, a in case["tree"])
             + sum(len(p) for p, _ in case["rows"]))
 
 
 def nontrivial(prop, case, obs):
     # some entry point accepted the input and the resulting tree has >= 3 nodes; or >= 1 row was refused
+    if case.get("ops"):
+        return sum(1 for o in obs.get("adds", []) if o["code"] == 0) >= 2
     acc = [o for o in obs["obs"] if o["code"] == 0 and len(o["tree"]) >= 3]
     rej = [o for o in obs["obs"] if o["code"] != 0]
     return bool(case["rows"]) and (bool(acc) or bool(rej))
 
 
 def sample(prop, case, obs):
+    if case.get("ops"):
+        return {"family": "seq", "sep": case["sep"], "duplicate_name_allowed": case["dup"], "tree": case["tree"],
+                "tree2": case.get("tree2"), "ops": case["ops"], "outcomes": [o["code"] for o in obs.get("adds", [])]}
     return {"family": case["family"], "sep": case["sep"], "duplicate_name_allowed": case["dup"],
             "existing_tree": case["tree"], "rows": case["rows"],
             "outcomes": {o["kind"]: o["code"] for o in obs["obs"]},
@@ -838,8 +1101,17 @@ def rule(prop):
             "(a/xa/b + a/b, duplicates disallowed), nodup-deep (duplicates disallowed, depth >= 4, input separator != tree "
             "separator, name repeated below a freshly created intermediate)) fed to all entry points of a family (new: "
             "list/dict/dataframe/polars_to_tree; add: add_path_to_tree row by row + add_{dict,dataframe,polars}_to_tree_by_path "
-            "on a pre-existing tree, start node anywhere in it; name: add_*_to_tree_by_name). Hand-over options per case: "
-            "Node or a user subclass (node_type / class of the existing tree; every node of the result must have that class), "
+            "on a pre-existing tree, start node anywhere in it; name: add_*_to_tree_by_name; seq (8%): histories on one or two "
+            "roots (second root often with the same name): add_path_to_tree calls interleaved with del parent[name], "
+            "node.parent = other, node.sort(), in particular add - detach/re-parent a prefix node of that path - add below the same "
+            "prefix again, and the same path added to both roots alternately; after every add the tree, the returned node and "
+            "prop_C05 (paths = before U prefixes, returned node at the path in the tree as it is now) are checked). Attribute "
+            "names per case: plain (x, s, y, b), non-identifiers, or affixes/superstrings of the reserved names and column options "
+            "(n, a, m, e, na, am, me, nam, ame, names, name_en, path, pat, depth, shift, col, node); values None / float('nan') / 0 / '' / "
+            "False / ints / strs and, for the entry points taking Python values, lists, dicts, tuples and non-integral floats. "
+            "Hand-over options per case: "
+            "Node, a user subclass, or a user subclass with value semantics (__eq__/__hash__ by name) (node_type / class of the "
+            "existing tree; every node of the result must have that class), "
             "list or tuple of paths, path/name column named and placed differently, explicit path_col/name_col/attribute_cols "
             "(reversed order, plus an unlisted column that must not show), pandas index labels unique / repeated / strings, "
             "node_attrs omitted when empty, the same tree extended by two calls (rows split in two batches). Observed per entry "
@@ -932,6 +1204,11 @@ def partial_clauses(prop):
         "object-mixed columns, polars LazyFrame; node_attrs values that are mutable objects",
         "BLIND SPOT entry points of construct.py outside the property's list are never called here: str_to_tree, "
         "nested_dict_to_tree, newick_to_tree, *_by_relation; BinaryNode / DAGNode trees as the tree being extended",
+        "BLIND SPOT user subclasses whose instances can be falsy (__len__ = number of children / __bool__) are NOT generated: "
+        "the unchanged tree itself fails there (add_path_to_tree / find_children test `if not node` / `if _node`, so an "
+        "existing leaf is taken for missing and a duplicate sibling is refused with TreeError) - reported as a possible finding",
+        "BLIND SPOT histories use duplicate_name_allowed=True only and the edits del / re-parent / sort (no shift_nodes / "
+        "copy_nodes, no renaming of nodes, no edits of the root's separator between calls)",
         "BLIND SPOT assertions switched off (BIGTREE_CONF_ASSERTIONS) and trees whose sibling names are not unique are not "
         "exercised",
     ]
